@@ -9,6 +9,7 @@ import StyluaModel.Lemmas.SortReq
 import StyluaModel.Lemmas.Paren
 import StyluaModel.Lemmas.Trivia
 import StyluaModel.Lemmas.ParenIdem
+import StyluaModel.Model.Table
 
 namespace StyluaModel.C06
 open StyluaModel
@@ -67,6 +68,36 @@ theorem C06_comment_text (t : List Char) (h : TriviaLemmas.noLoneCR t = true) :
   refine ⟨TriviaLemmas.trimEnd_idem t, ?_⟩
   simp only [Trivia.fmtText, StrLit.rewriteLong, TriviaLemmas.lfToEol_lf]
   exact TriviaLemmas.crlfToLf_noCR _ (TriviaLemmas.noCR_crlfToLf t h)
+
+/-- **tables: a multi-line table stays multi-line** (its `{` is followed by a newline), whatever the
+width, the position and the size of its content -/
+theorem C06_table_multi_stable (width col span : Nat) (expand : Bool) :
+    Table.decide width col (Table.multiLineOutput span expand) = .multi := by
+  simp [Table.decide, Table.multiLineOutput]
+
+/-- **tables: a single-line table stays single-line provided formatting did not lengthen its
+content** beyond what the first decision budgeted for (`span + additional` of the input) -/
+theorem C06_table_single_stable (width col content : Nat) (t : Table.TableIn)
+    (h1 : Table.decide width col t = .single) (hgrow : content + 2 ≤ t.span + Table.additional t) :
+    Table.decide width col (Table.singleLineOutput content) = .single := by
+  unfold Table.decide at h1 ⊢
+  simp only [Table.singleLineOutput, Table.additional]
+  split at h1
+  · split at h1 <;> cases h1
+  · split at h1
+    · cases h1
+    · split at h1
+      · cases h1
+      · rename_i hfit
+        have : ¬ (col + (content + 2) + 0 + 1 > width) := by omega
+        simp [this]
+
+/-- **… and the proviso is needed: the decision is taken on the input's width, the output's may be
+larger** - `local x = { a,b,c,d,e,f,g,h,i,j }` at width 34 (known finding, D14): 21 bytes
+between the braces fit (10 + 21 + 0 + 1 = 32), the formatted content is 28 + 2 and does not -/
+theorem C06_table_growth_witness :
+    let input : Table.TableIn := { hasFields := true, nlAfterOpen := false, span := 21, wsAfterOpen := true, wsBeforeClose := true, expand := false }
+    Table.decide 34 10 input = .single ∧ Table.decide 34 10 (Table.singleLineOutput 28) = .multi := by decide
 
 /-- **the parenthesis rule is idempotent** on every expression without a `- -` pair, in every
 context: formatting the formatted tree again drops and adds nothing. (All sizes; the single-line
